@@ -55,7 +55,7 @@ def check(ctx):
     ctx.count("argsort sites in Vector.sort/rank", n_arg, 2)
     # ------------------------------------------------------- SIB-na-last
     rets = [n for n in body_nodes(sort.node) if isinstance(n, ast.Return)]
-    ctx.count("exits of Vector.sort", len(rets), 2)
+    ctx.count("exits of Vector.sort", len(rets), 1)
     for r in rets:
         v = r.value
         ok, why = False, "return value is not X[~na].concat(X[na])"
@@ -102,7 +102,9 @@ def check(ctx):
                 if isinstance(n, ast.Subscript) and isinstance(n.ctx, ast.Store) and isinstance(n.value, ast.Name) \
                         and n.value.id in rnames:
                     stores.append((n, s))
-        pos = [norm(n.slice) for n, _ in stores]
+        from ..forms import resolved_text
+        pos = [resolved_text(rank, n.slice, n) for n, _ in stores]
+        stores_txt = pos
         has_val = any(p.startswith("~") for p in pos)
         has_na = any(not p.startswith("~") and p in [q[1:] for q in pos if q.startswith("~")] for p in pos)
         ret = [s for s in br.body if isinstance(s, ast.Return)]
@@ -113,11 +115,11 @@ def check(ctx):
             tgt = stores[0][0].value.id
             if not (ret[0].value is not None and tgt in {n.id for n in ast.walk(ret[0].value) if isinstance(n, ast.Name)}):
                 ok, why = False, "branch does not return the array it filled"
-            idx_val = next(i for i, (n, _) in enumerate(stores) if norm(n.slice).startswith("~"))
-            idx_na = next(i for i, (n, _) in enumerate(stores) if not norm(n.slice).startswith("~"))
+            idx_val = next(i for i, t in enumerate(pos) if t.startswith("~"))
+            idx_na = next(i for i, t in enumerate(pos) if not t.startswith("~"))
             if idx_na < idx_val:
                 na_stmt = stores[idx_na][1]
-                if any(isinstance(n, ast.Subscript) and norm(n.slice).startswith("~") and isinstance(n.ctx, ast.Load)
+                if any(isinstance(n, ast.Subscript) and resolved_text(rank, n.slice, n).startswith("~") and isinstance(n.ctx, ast.Load)
                        for n in ast.walk(na_stmt.value)):
                     ok, why = False, "missing ranks are derived from the non-missing ranks before those are written"
         else:
